@@ -332,10 +332,20 @@ def token_templates(ctx, frag, depth=2):
         if g.qual in seen:
             return
         seen.add(g.qual)
+        local = {x.id for x in own_nodes(g.node) if isinstance(x, ast.Name) and isinstance(x.ctx, ast.Store)} | set(g.params)
         for n in own_nodes(g.node):
             if isinstance(n, ast.Call) and isinstance(n.func, ast.Attribute) and n.func.attr == "format" \
                     and isinstance(n.func.value, ast.Constant) and isinstance(n.func.value.value, str):
                 out.append((g, n, n.func.value.value, list(n.args)))
+            elif isinstance(n, ast.Call) and isinstance(n.func, ast.Attribute) and n.func.attr == "format" \
+                    and isinstance(n.func.value, ast.Name) and n.func.value.id not in local and not n.keywords:
+                # a template held in a module-level string constant
+                try:
+                    v = ctx.fold.global_value(g.module.name, n.func.value.id)
+                except Exception:
+                    v = None
+                if isinstance(v, str):
+                    out.append((g, n, v, list(n.args)))
             elif isinstance(n, ast.JoinedStr):
                 tmpl, args, ok = "", [], True
                 for v in n.values:
